@@ -155,6 +155,20 @@ CHECKS = {
     note="Faults are injected as ArithmeticError raised by the KKT factor/solve routines (the documented failure signal). Consistency of the "
          "'unknown' result is judged by harness/alpha.py (exact rational recomputation).",
     technique="TLA+ contract + faithful control models checked by TLC; exhaustive fault-position injection into the real solvers; TLC trace validation"),
+ "C14": dict(
+    category="model_checking",
+    text="MPS.tla (over ModelLP.tla): Write (the records op.tofile must produce: labels by the documented naming rule, numbers to six significant digits, "
+         "every column present), Read (the section machine of the fixed MPS format over the supported subset: N/L/G/E rows incl. free rows, RHS incl. the "
+         "objective's, RANGES with every sign rule, bounds LO/UP/FX/FR/MI/PL with conflicts, first vector of each kind only, rows without variables) and the "
+         "theorem RoundTrip, which TLC checks for every generated LP. (w) generated LPs are built with the real operators, written with op.tofile, the file "
+         "is tokenized by an independent fixed-column tokenizer and TLC decides whether the ACTUAL file denotes the LP and what fromfile must build from it; "
+         "op.fromfile of a fresh op is projected through the public API and compared; both problems are solved (status, optimal value of the linear part). "
+         "(r) generated well-formed record sequences are rendered by the harness, read with op.fromfile and compared with Read(records); files the format "
+         "does not define must be refused; non-LPs must be refused by tofile.",
+    design_ref="DESIGN.md section 4 C14",
+    note="Integer data (exact in the 12-character number fields). LPs with a row without variables are outside the round-trip statement (the reader drops such rows "
+         "on purpose). The UP-with-negative-value quirk of some MPS dialects is not modelled.",
+    technique="TLA+ writer/reader model evaluated by TLC on the actual file records; differential replay into op.tofile / op.fromfile"),
  "C15": dict(
     category="model_checking",
     text="DenseMatrix.tla is an executable reference model written from matrices.rst: a heap of matrix objects and an environment of names; "
